@@ -60,6 +60,12 @@ class Lock:
 
 def repo_digest():
     h = hashlib.sha256()
+    # the translator's own sources: a changed translator regenerates too
+    trdir = os.path.join(VERIF, "translator")
+    for f in sorted(os.listdir(trdir)):
+        if f.endswith(".go"):
+            with open(os.path.join(trdir, f), "rb") as fh:
+                h.update(fh.read())
     for root, dirs, files in os.walk(REPO):
         dirs[:] = sorted(d for d in dirs if d not in (".git", "testdata", "node_modules"))
         for f in sorted(files):
@@ -76,7 +82,7 @@ def leg_generate(log):
     gen = os.path.join(COQ, "theories", "Gen")
     stamp = os.path.join(gen, ".stamp")
     digest = repo_digest()
-    names = ["Enums", "Operands", "Locks", "MapLoops", "Ctors", "FieldFlow", "Formats", "Printers"]
+    names = ["Enums", "Operands", "Locks", "MapLoops", "Ctors", "FieldFlow", "Formats", "Printers", "WriterTable"]
     if os.path.exists(stamp) and open(stamp).read().strip() == digest and all(
             os.path.exists(os.path.join(gen, n + ".v")) for n in names):
         return True, "unchanged sources (digest %s)" % digest[:12], 0.0
